@@ -78,3 +78,12 @@ _amend("C06", _NFC, "would_compose <=> compose and is_already_nfc <=> its three 
        "ada::idna::normalize vs Python unicodedata NFC on ~350 000 strings of assigned NFKC-stable code points (sound for Unicode 17 by the normalisation stability policy) and the WPT "
        "toascii.json / IdnaTestV2.json vectors through ada::unicode::to_ascii. Still NOT covered: equality of the IDNA mapping / bidi / joining tables with Unicode 17.")
 _amend("C16", _NFC, "Canonical-equivalence beyond these kernels rests on the native NFC base case (see C06), reported separately.")
+
+# --- third round ---------------------------------------------------------------------------------------------------------
+_amend("C10", "checkers::verify_dns_length (has_valid_domain) equals the DNS length limits (non-empty, labels 1..63 with only a final empty label, 253 bytes or 254 with the root dot) "
+       "for ALL byte strings at each listed length (<= 24 quick, <= 32 thorough) and rejects ALL strings of 255 / 256 bytes.",
+       "the label bound 63 and the totals 253 / 254 need inputs of 64+ bytes: the nested find loop over a symbolic start offset is undecided at 40 bytes within 120 s and at 64 bytes within 300 s even for the "
+       "two-dot input class (dns_len2_*, thorough-tier attempts, reported undecided when they do not finish) - a change of the constant 63 is NOT detected by the quick tier.")
+_amend("C17", "", "A NATIVE list-model base case (reported separately, not a solver result) drives an ada_c search-params handle in lock-step with the C++ object and the Standard's list model over "
+       "6000 histories (append/set/remove/remove_value/has/has_value/get/get_all/sort/reset/to_string/entries iterator).")
+_amend("C12", "", "The native list-model base case also resets with unrelated init strings ('', '?', '&', 'x=1&&y&=z') and drives the C API handle in lock-step.")
